@@ -96,6 +96,9 @@ class LangServer:
             setattr(self, k, v)
             self.option_names.append(k)
 
+        # A list of names is as valid on the command line as in the file
+        if isinstance(self.pp_defs, list):
+            self.pp_defs = {key: "" for key in self.pp_defs}
         self.sync_type: int = 2 if self.incremental_sync else 1
         self.post_messages = []
         self.FORTRAN_SRC_EXT_REGEX: Pattern[str] = create_src_file_exts_str(
